@@ -277,6 +277,53 @@ def check_block_layers(ctx, prog, tag):
                        "BlockState::Replace is not built by prepare_blocks from the same instructions_and_blocks() "
                        "result as the instructions that are entered", f.where(c.bb))
     ctx.floor("C06.I6 with_execution_state call sites" + tag, n6, 3)
+    # -- I7: a block is rendered where it is defined.  Whether the template ends up extending another one is only known
+    # at run time (conditional / dynamic extends), so the code generator must emit the CallBlock for every block it
+    # registers, on every path; the interpreter skips it once a parent is loaded.
+    GENB = "minijinja::compiler::codegen::CodeGenerator::compile_block"
+    if prog.has_fn(GENB):
+        cbk = prog.fn(GENB)
+        INSTR_ = "minijinja::compiler::instructions::Instruction"
+        calls_cb = set()
+        for c in cbk.calls():
+            if c.name.endswith("CodeGenerator::add") or c.name.endswith("CodeGenerator::add_with_span"):
+                if any(o.kind == "agg" and o.rv.get("adt") == INSTR_ and o.rv.get("variant") == "CallBlock"
+                       for o in flow.origins(cbk, c.args[1])):
+                    calls_cb.add(c.bb)
+        regs_ = {c.bb for c in cbk.calls() if c.name.endswith("BTreeMap::insert") or c.name.endswith("::insert")
+                 and any("blocks" in o.proj for o in flow.origins(cbk, c.args[0]))}
+        ctx.ob("C06.I7.block-is-called-where-it-is-defined", tag + "compile_block",
+               bool(calls_cb) and bool(regs_) and cfg.paths_must_pass(cbk, 0, calls_cb, cbk.returns())
+               and cfg.paths_must_pass(cbk, 0, regs_, cbk.returns()),
+               "a path through compile_block registers the block without emitting its CallBlock (or the reverse): "
+               "whether a template extends another is decided at run time, so a block skipped at compile time is "
+               "missing from the output when the extends is not taken", cbk.loc)
+    # -- the block named by `current_block` need not exist in the active table (an included template runs on its own
+    # table inside the includer's block): the first lookup of `state.blocks` in super() must be a checked one; later
+    # unwrapped lookups are only sound behind it
+    lookups = [c for c in ps.calls() if c.name.split("::")[-1] in ("get", "get_mut", "get_key_value") and "BTreeMap" in c.name
+               and any("blocks" in o.proj for o in flow.origins(ps, c.args[0]))]
+    checked = []
+    for c in lookups:
+        sp = errflow.result_split(ps, c.dest["l"]) if c.dest is not None and "p" not in c.dest else None
+        if sp is not None and sp.switches:
+            okc = True
+            for (sb, none_t, some_t, other, adt) in sp.switches:
+                for t_ in (none_t or {other}):
+                    okc = okc and err_returned_from(ps, t_)
+            if okc:
+                checked.append(c)
+    nth = 0
+    for c in lookups:
+        if c in checked:
+            continue
+        nth += 1
+        dom = any(cfg.dominates(ps, k.bb, c.bb) for k in checked)
+        ctx.ob("C06.I5.super-block-lookup-is-checked", tag + "perform_super|unwrapped-lookup#%d" % nth,
+               dom, "perform_super unwraps `state.blocks.%s(current_block)` without an earlier checked lookup: inside an "
+               "included template the block of the includer is not in the table and super() panics" % c.name.split("::")[-1],
+               ps.where(c.bb))
+    ctx.floor("C06.I5 block table lookups in perform_super" + tag, len(lookups), 2)
     for fn_, nm in ((ps, "perform_super"), (prog.fn(CB), "call_block")):
         ok = False
         for c in fn_.calls_to(WES):
